@@ -408,8 +408,10 @@ class MinErrorFlow():
                 # edge_subset = edge_subset[:30]        
 
                 # Getting all the different 'flow_attr' values in the corrected graph
+                # (edge_subset are edges of the internal graph, while for node-weighted input corrected_graph is the
+                # condensed graph: the corrected values are read from self.edge_sol, filled in by get_solution() above)
                 ub_different_flow_values = len(set(
-                    corrected_graph[u][v].get(self.flow_attr, 0)
+                    self.edge_sol[(u, v)] if self.flow_attr in self.original_graph_copy[u][v] else 0
                     for (u, v) in edge_subset
                 ))
 
@@ -472,8 +474,13 @@ class MinErrorFlow():
                 else float(edge_sol_dict[edge])
             )
 
-        edge_error_sol_dict = self.solver.get_values(self.edge_error_vars)
-        error = sum(edge_error_sol_dict.values())
+        # The error is recomputed from the corrected values: the error variables are only upper bounds on the absolute
+        # differences, and they are tight only when their sum is what is being minimised (not in the few-values stage)
+        error = sum(
+            abs(data[self.flow_attr] - self.edge_sol[(u, v)])
+            for u, v, data in self.G.edges(data=True)
+            if (u, v) not in self.edges_to_ignore and self.flow_attr in data
+        )
 
         corrected_graph = deepcopy(self.original_graph_copy)
         for u, v in corrected_graph.edges():
